@@ -260,3 +260,12 @@ def overlap_selectors(ctx):
         want = T.ite(T.not_(env['whole']), env['part'], env['result'])
         ctx.eq(R, short, v, want, ctx.where(fa, r[-1] if r else None),
                'bins overlapping [start, end): first = #bins with end <= start, count = #starts (from there) < end')
+
+
+_run_core = run
+
+
+def run(ctx):
+    _run_core(ctx)
+    from . import refs_misc
+    refs_misc.run_for(ctx, 'C04')
